@@ -152,6 +152,21 @@ def run(M, rep, tier, only=None):
                             why = ("a failing task is caught and the loop goes on: the version bump still runs after a conversion step "
                                    "failed, so the half-converted file claims to be current")
         rep.check(R2, "process_tasks", ok, why, site="%s:%d" % (pt.file, pt.node.lineno))
+        # the driver itself touches no file: everything written is written by a task (an up-to-date file has no tasks and
+        # must stay byte for byte what it was)
+        wr = None
+        for p in explore(cfg, pt, None, None, 2000):
+            for e in p.events:
+                if (e.kind == "raw" and (e.op in ("h5py.File", "h5py.h5f.open", "h5py.h5f.create") or
+                                         (e.kw.get("__effect__") is not None and str(e.kw["__effect__"].t[1]).startswith("W")))) or \
+                        (e.kind == "ext" and e.op.split(".")[-1] in ("open",) and e.op.startswith("builtins")):
+                    wr = (p, e)
+                if e.op.split(".")[-1] in ("setitem", "__setitem__") and e.key is not None and is_const(e.key) and \
+                        e.key.t[1] in ("updated_at", "created_at", "version", "format"):
+                    wr = (p, e)
+        rep.check(R2, "process_tasks/driver writes nothing", wr is None, "process_tasks itself opens / writes the file (%s): a file that "
+                  "needs no conversion is changed by 'upgrading' it" % (wr[1].op if wr else ""), site=wr[1].site if wr else None,
+                  detail=describe_path(wr[0]) if wr else None)
 
     # ---------------------------------------------------------------- R3 / R4 / R5 / R6 on the closures
     vwriters = []
